@@ -515,7 +515,10 @@ def rule_atomic(ctx):
 
 def rule_chain(ctx):
     p = ctx.p
-    f = p.cls("indi.client.device.Device").find_method("process_message")
+    dev = p.cls("indi.client.device.Device")
+    f = dev.find_method("process_message")
+    # findings are named by the public entry point the failing history enters through, wherever its body is defined
+    entry = f"{dev.short}.process_message"
     d1 = lambda: msg(p, "DefTextVector", "D", "V1", [part(p, "DefText", "A", "a"), part(p, "DefText", "B", "a")], state="Ok")
     d2 = lambda: msg(p, "DefTextVector", "D", "V1", [part(p, "DefText", "A", "a"), part(p, "DefText", "B", "b")], state="Ok")
     paths = feed(p, lambda it: make_client(p, [make_callback(p, label="all")], it=it), lambda: [d1(), d2()])
@@ -531,13 +534,13 @@ def rule_chain(ctx):
         want = [("ValueUpdate", "D", "V1", "B", "'a'", "'b'")]
         if sorted(vs) != sorted(want):
             ctx.violated(
-                "C16.CHAIN", f.short,
+                "C16.CHAIN", entry,
                 f"re-definition of an existing property raises {vs}; the chain requires exactly {want} (old = previous value, nothing for unchanged A and state)",
                 fi=f, text="redefinition", witness="def(V1: A=a, B=a, Ok); def(V1: A=a, B=b, Ok)",
             )
             bad = True
     if not bad:
-        ctx.holds("C16.CHAIN", f.short, "re-definition continues the chain from the previous mirror values", fi=f)
+        ctx.holds("C16.CHAIN", entry, "re-definition continues the chain from the previous mirror values", fi=f)
 
 
 # the last event's new value is the current value: the mirror itself must be right
